@@ -23,6 +23,7 @@ from verif.tlc import MachineryError, json_lines, run_tlc
 TICK = 1.0
 MAXDUR = 2
 CLIENT_PORT = {'A': 10011, 'B': 10012}
+END_PORT_OFFSET = 10
 
 
 class VTime:
@@ -106,10 +107,11 @@ class SubSession:
         self.n_hk = len(self.provider._subscriptions_managers)  # noqa: SLF001
         self.sinks = {}
         for name, port in CLIENT_PORT.items():
-            srv = FakeHttpServer(self.net, '127.0.0.1', port)
-            sink = Sink()
-            srv.dispatcher.register_instance('sink', sink)
-            self.sinks[name] = sink
+            for p in (port, port + END_PORT_OFFSET):      # EndTo lives on another host:port than NotifyTo
+                srv = FakeHttpServer(self.net, '127.0.0.1', p)
+                sink = Sink()
+                srv.dispatcher.register_instance('sink', sink)
+                self.sinks[(name, p)] = sink
         self.fail = {}
         self.strip_expires = False
         self.net.on_post = self._on_post
@@ -164,7 +166,11 @@ class SubSession:
                 continue
             kind = 'End' if b'SubscriptionEnd' in w.data else ('metric' if b'EpisodicMetricReport' in w.data else
                                                                'alert' if b'EpisodicAlertReport' in w.data else 'other')
-            out.append({'id': int(parts[2]), 'kind': kind, 'addr': parts[1], 'outcome': w.outcome})
+            port = int(w.dst.rsplit(':', 1)[1])
+            host_kind = 'notify' if port in CLIENT_PORT.values() else 'end'
+            # addr = where it really went: the endpoint kind only if host:port and path agree
+            addr = parts[1] if parts[1] == host_kind else f'misrouted:{host_kind}-host/{parts[1]}-path'
+            out.append({'id': int(parts[2]), 'kind': kind, 'addr': addr, 'outcome': w.outcome})
         self.log_pos = len(self.net.log)
         return out
 
@@ -228,7 +234,7 @@ class SubSession:
             ft = evt.FilterType()
             ft.text = ' '.join(actions[a] for a in sorted(rec['f']))
             ft.Dialect = DeviceEventingFilterDialectURI.ACTION
-            end_to = f'http://127.0.0.1:{port}/sink/end/{i}' if rec['endTo'] else None
+            end_to = f'http://127.0.0.1:{port + END_PORT_OFFSET}/sink/end/{i}' if rec['endTo'] else None
             sub = ConsumerSubscription(self.factory, self.defs.data_model, lambda addr: self.client, self.hosted, ft,
                                        f'http://127.0.0.1:{port}/sink/notify/{i}', end_to, '')
             self.strip_expires = not rec['req']
